@@ -115,6 +115,7 @@ class Report:
         self.fns = set()
         self.sites = 0
         self.notes = []
+        self.reviews = []
 
     def fn(self, body):
         self.fns.add(body.path)
@@ -132,6 +133,10 @@ class Report:
 
     def note(self, text):
         self.notes.append(text)
+
+    def review(self, key, text):
+        """differs from the reviewed reference without losing any of its facts: printed and recorded, never an alarm"""
+        self.reviews.append((self.full(key), text))
 
     def guard(self, key, fn):
         """Run a rule; a lost anchor or an analysis exception is a finding of that instance (fail closed)."""
@@ -228,6 +233,9 @@ def main():
             print("    at %s" % w)
         print("VIOLATION property=%s replay=%s" % (prop, rp))
 
+    for key, text in R.reviews:
+        print("REVIEW %s: %s" % (key, text))
+
     # evidence
     okkeys = {}
     for key, ok, text, where in R.instances:
@@ -258,6 +266,7 @@ def main():
             "not_decided": getattr(mod, "NOT_DECIDED", ""),
             "known_findings_matched": nknown,
             "notes": R.notes[:20],
+            "review_notes": [{"key": k, "text": t[:400]} for k, t in R.reviews[:40]],
             "instances": [{"key": k, "ok": all(o for o, _, _ in v), "n": len(v)} for k, v in sorted(okkeys.items())],
             "fingerprint": getattr(R, "fp_stats", None),
         },
